@@ -55,10 +55,14 @@ impl Shape {
 /// cases (analysing the 50 std files costs more than the case itself).
 pub fn draw_toml(d: &mut Draw, build: &[(String, String)], quick: bool) -> String {
     let mut s = String::from("[project]\nname = \"prj\"\nversion = \"0.1.0\"\n[build]\nsources = [\"src\"]\ntarget = {type = \"directory\", path = \"target\"}\n");
-    let with_std = d.chance(1, if quick { 40 } else { 15 });
+    // quick tier: the harvested sub-domain (no std files, default presentation settings)
+    let with_std = !quick && d.chance(1, 15);
     s.push_str(&format!("exclude_std = {}\n", !with_std));
     for (k, v) in build {
         s.push_str(&format!("{k} = {v}\n"));
+    }
+    if quick {
+        return s;
     }
     let has = |k: &str| build.iter().any(|x| x.0 == k);
     if d.chance(1, 4) {
@@ -104,7 +108,7 @@ pub fn shape(d: &mut Draw, quick: bool) -> Shape {
         4 => rec_import(d),
         5 => limits(d, quick),
         6 => opchain(d, quick),
-        7 => arith(d),
+        7 => arith(d, quick),
         _ => kinds(d, quick),
     }
 }
@@ -166,7 +170,7 @@ fn rec_function(d: &mut Draw) -> Shape {
         6 => "    function f (\n        x: input logic<32>,\n    ) -> logic<32> {\n        var t: logic<32>;\n        t = f(f(x));\n        return t;\n    }\n".to_string(),
         7 => "    function f (\n        x: input logic<32>,\n    ) {\n        f(x);\n    }\n".to_string(),
         8 => "    function f (\n        x: input  logic<32>,\n        y: output logic<32>,\n    ) {\n        f(x, y);\n    }\n".to_string(),
-        9 => format!("    function f (\n        x: input u32,\n    ) -> u32 {{\n        var s: u32;\n        s = 0;\n        for i: u32 in 0..x {{\n            s = s + f(i);\n        }}\n        return s;\n    }}\n    const D: u32 = f({});\n", d.usize_in(0, 6)),
+        9 => format!("    function f (\n        x: input u32,\n    ) -> u32 {{\n        var s: u32;\n        s = 0;\n        for i in 0..x {{\n            s = s + f(i);\n        }}\n        return s;\n    }}\n    const D: u32 = f({});\n", d.usize_in(0, 6)),
         10 => "    function f (\n        x: input logic<32>,\n    ) -> logic<32> {\n        return if x == 0 ? 0 : f(x - 1);\n    }\n    const D: u32 = f(3);\n".to_string(),
         _ => "    function f (\n        x: input logic<32> = f(1),\n    ) -> logic<32> {\n        return x;\n    }\n".to_string(),
     };
@@ -299,10 +303,10 @@ fn limits(d: &mut Draw, quick: bool) -> Shape {
     // two-dimensional: a 256 x 256 array takes the post-pass-2 checks minutes (slow, not a crash)
     let a2 = a.min(48);
     let text = match v {
-        0 => format!("module M {{\n    var a: logic<32>;\n    always_comb {{\n        a = 0;\n        for i: u32 in 0..{n} {{\n            a = a + i;\n        }}\n    }}\n}}\n"),
+        0 => format!("module M {{\n    var a: logic<32>;\n    always_comb {{\n        a = 0;\n        for i in 0..{n} {{\n            a = a + i;\n        }}\n    }}\n}}\n"),
         1 => format!("module M {{\n    for i in 0..{n} :g {{\n        let _x: logic = 1;\n    }}\n}}\n"),
-        2 => format!("module M {{\n    function f () -> u32 {{\n        var s: u32;\n        s = 0;\n        for i: u32 in 0..{n} {{\n            s = s + i;\n        }}\n        return s;\n    }}\n    const K: u32 = f();\n}}\n"),
-        3 => format!("module M {{\n    var a: logic [{a}];\n    always_comb {{\n        for i: u32 in 0..{a} {{\n            a[i] = 0;\n        }}\n    }}\n}}\n"),
+        2 => format!("module M {{\n    function f () -> u32 {{\n        var s: u32;\n        s = 0;\n        for i in 0..{n} {{\n            s = s + i;\n        }}\n        return s;\n    }}\n    const K: u32 = f();\n}}\n"),
+        3 => format!("module M {{\n    var a: logic [{a}];\n    always_comb {{\n        for i in 0..{a} {{\n            a[i] = 0;\n        }}\n    }}\n}}\n"),
         4 => {
             let w = limit_near(d, (sl / a.max(1)).max(1));
             format!("module M {{\n    var a: logic<{w}> [{a}];\n    assign a = '{{default: 0}};\n}}\n")
@@ -311,12 +315,12 @@ fn limits(d: &mut Draw, quick: bool) -> Shape {
         6 => {
             let i = d.usize_in(1, 64);
             let j = (sl / i).max(1);
-            format!("module M {{\n    var a: logic<32>;\n    always_comb {{\n        a = 0;\n        for i: u32 in 0..{i} {{\n            for j: u32 in 0..{j} {{\n                a = a + i + j;\n            }}\n        }}\n    }}\n}}\n")
+            format!("module M {{\n    var a: logic<32>;\n    always_comb {{\n        a = 0;\n        for i in 0..{i} {{\n            for j in 0..{j} {{\n                a = a + i + j;\n            }}\n        }}\n    }}\n}}\n")
         }
         7 => format!("module M {{\n    var a: logic [{a2}, {a2}];\n    assign a = '{{default: '{{default: 0}}}};\n    let _b: logic = a[{}][{}];\n}}\n", a2.saturating_sub(1), a2),
         8 => format!("module M {{\n    let _a: logic<{n}> = '1;\n    let _b: logic<{n}> = _a + 1;\n    let _c: logic = _b[{}];\n}}\n", n.saturating_sub(1)),
-        9 => format!("module M {{\n    var a: logic<4>;\n    always_comb {{\n        a = 0;\n        for i: u32 in 0..{n} step += 0 {{\n            a = 1;\n        }}\n    }}\n}}\n"),
-        10 => format!("module M {{\n    var a: logic<4>;\n    always_comb {{\n        a = 0;\n        for i: i32 in rev 0..{} {{\n            a = a + 1;\n            if i == 1 {{\n                break;\n            }}\n        }}\n    }}\n}}\n", n.min(5000)),
+        9 => format!("module M {{\n    var a: logic<4>;\n    always_comb {{\n        a = 0;\n        for i in 0..{n} step += 0 {{\n            a = 1;\n        }}\n    }}\n}}\n"),
+        10 => format!("module M {{\n    var a: logic<4>;\n    always_comb {{\n        a = 0;\n        for i in rev 0..{} {{\n            a = a + 1;\n            if i == 1 {{\n                break;\n            }}\n        }}\n    }}\n}}\n", n.min(5000)),
         _ => format!("module M {{\n    for i in 0..{} :g {{\n        for j in 0..{} :h {{\n            var a: logic [{a}];\n            assign a = '{{default: 0}};\n        }}\n    }}\n}}\n", d.usize_in(1, 8), d.usize_in(1, 8)),
     };
     Shape::new("limits", v, text)
@@ -383,7 +387,7 @@ fn opchain(d: &mut Draw, quick: bool) -> Shape {
 }
 
 /// Extreme constants in width / index / shift / repeat / cast positions.
-fn arith(d: &mut Draw) -> Shape {
+fn arith(d: &mut Draw, quick: bool) -> Shape {
     const VALS: &[&str] = &[
         "0", "1", "-1", "0 - 1", "4294967295", "4294967296", "18446744073709551615", "18446744073709551616", "1 << 31", "1 << 32", "1 << 63", "1 << 64",
         "1 << 100000", "2 ** 31", "2 ** 32", "2 ** 64", "2 ** 1000", "1 / 0", "1 % 0", "0 / 0", "$clog2(0)", "$clog2(1)", "$clog2(-1)", "1.5", "1e30",
@@ -392,16 +396,42 @@ fn arith(d: &mut Draw) -> Shape {
         "if W == 0 ? 0 : 1 / 0", "{1'b1 repeat 65}", "{W{1'b1}}", "true", "false", "1 <<< 70", "(-1) >>> 70", "1 >> -1", "1 << -1", "2 ** -1", "0 ** 0",
         "0 ** -1", "(-1) ** 4294967297", "8'd255 + 8'd1", "$signed(8'hff)", "$unsigned(-1)", "$size(a)", "msb", "lsb", "a", "a[0]", "_",
     ];
+    // cast targets: a cast of an operator expression to a huge width builds a huge mask
+    // (listed finding hang:pass2:arith) — targets are drawn from values known to be small
+    const CAST_VALS: &[&str] = &["0", "1", "8", "65", "W", "1.5", "\"abc\"", "'x", "true", "a", "_", "msb", "$clog2(0)", "1 / 0", "0'd0", "8'hxx", "u8", "i64", "bool"];
     let p = |d: &mut Draw| d.pick(VALS).to_string();
-    let n_items = d.usize_in(1, 3);
+    // quick tier: one item, one extreme value, the other holes benign (a domain small
+    // enough to be harvested exhaustively); thorough: 1-3 items, every hole extreme
+    let n_items = if quick { 1 } else { d.usize_in(1, 3) };
     let mut items = String::new();
     let mut variant = 0;
+    let mut has_cast = false;
     for k in 0..n_items {
         let v = d.below(30) as usize;
         if k == 0 {
             variant = v;
         }
-        let (x, y, z) = (p(d), p(d), p(d));
+        let (mut x, mut y, mut z) = (p(d), p(d), p(d));
+        if quick {
+            match d.below(3) {
+                0 => {
+                    y = "1".into();
+                    z = "3".into();
+                }
+                1 => {
+                    x = "2".into();
+                    z = "3".into();
+                }
+                _ => {
+                    x = "2".into();
+                    y = "1".into();
+                }
+            }
+        }
+        if v == 12 {
+            has_cast = true;
+            y = d.pick(CAST_VALS).to_string();
+        }
         let it = match v {
             0 => format!("var _v{k}: logic<{x}>;"),
             1 => format!("var _v{k}: logic<{x}, {y}>;"),
@@ -428,7 +458,7 @@ fn arith(d: &mut Draw) -> Shape {
             22 => format!("enum E{k} {{\n        P{k} = {x},\n        Q{k},\n    }}"),
             23 => format!("struct S{k} {{\n        m: logic<{x}>,\n        n: logic<{y}>,\n    }}\n    let _v{k}: S{k} = {z};"),
             24 => format!("for i in {x}..{y} :g{k} {{\n        let _w: logic = 1;\n    }}"),
-            25 => format!("var v{k}: logic<8>;\n    always_comb {{\n        v{k} = 0;\n        for i: u32 in {x}..{y} step += {z} {{\n            v{k} = v{k} + 1;\n        }}\n    }}"),
+            25 => format!("var v{k}: logic<8>;\n    always_comb {{\n        v{k} = 0;\n        for i in {x}..{y} step += {z} {{\n            v{k} = v{k} + 1;\n        }}\n    }}"),
             26 => format!("inst u{k}: Sub #(\n        W: {x},\n    ) (\n        p: {y},\n    );"),
             27 => format!("var v{k}: logic<8>;\n    always_comb {{\n        case a {{\n            {x}, {y}: v{k} = 1;\n            {z}    : v{k} = 2;\n            default: v{k} = 0;\n        }}\n    }}"),
             28 => format!("var v{k}: logic<8>;\n    assign v{k}[{x}:{y}] = {z};"),
@@ -438,7 +468,7 @@ fn arith(d: &mut Draw) -> Shape {
         items.push_str(&it);
         items.push('\n');
     }
-    let w = p(d);
+    let w = if quick || has_cast { "4".to_string() } else { p(d) };
     let text = format!(
         "module Sub #(\n    param W: u32 = 1,\n) (\n    p: input logic<W>,\n) {{}}\nmodule M #(\n    param W: u32 = {w},\n) {{\n    let a: logic<8> = 1;\n    var b: logic<8> [4];\n    assign b = '{{default: 0}};\n{items}}}\n"
     );
@@ -459,7 +489,8 @@ fn kinds(d: &mut Draw, quick: bool) -> Shape {
         "zz", "zz::yy", "P::zz", "v.zz", "$sv::pkg::x", "$std::fifo", "clk", "rst", "i_p", "o_p", "m_p", "m_p.a", "gi", "logic", "u32", "1", "\"s\"", "_",
     ];
     let nm = |d: &mut Draw| d.pick(NAMES).to_string();
-    let n_items = d.usize_in(1, if quick { 2 } else { 4 });
+    // quick tier: one use site with one arbitrary name, the other holes a plain variable
+    let n_items = if quick { 1 } else { d.usize_in(1, 4) };
     let mut items = String::new();
     let mut variant = 0;
     let n_templates = if quick { 44 } else { 56 };
@@ -468,7 +499,23 @@ fn kinds(d: &mut Draw, quick: bool) -> Shape {
         if k == 0 {
             variant = v;
         }
-        let (x, y, z) = (nm(d), nm(d), nm(d));
+        let (mut x, mut y, mut z) = (nm(d), nm(d), nm(d));
+        if quick {
+            match d.below(3) {
+                0 => {
+                    y = "v".into();
+                    z = "v".into();
+                }
+                1 => {
+                    x = "v".into();
+                    z = "v".into();
+                }
+                _ => {
+                    x = "v".into();
+                    y = "v".into();
+                }
+            }
+        }
         let it = match v {
             0 => format!("inst n{k}: {x};"),
             1 => format!("inst n{k}: {x} (\n        i: {y},\n        o: {z},\n    );"),
@@ -482,7 +529,7 @@ fn kinds(d: &mut Draw, quick: bool) -> Shape {
             9 => format!("always_comb {{\n        {x} = {y};\n    }}"),
             10 => format!("always_comb {{\n        {x}({y});\n    }}"),
             11 => format!("always_comb {{\n        if {x} {{\n            w = {y};\n        }}\n    }}"),
-            12 => format!("always_comb {{\n        for i: {x} in {y}..{z} {{\n            w = i;\n        }}\n    }}"),
+            12 => format!("always_comb {{\n        for {x} in {y}..{z} {{\n            w = i;\n        }}\n    }}"),
             13 => format!("always_comb {{\n        case {x} {{\n            {y}: w = 1;\n            default: w = {z};\n        }}\n    }}"),
             14 => format!("always_ff ({x}, {y}) {{\n        if_reset {{\n            r = 0;\n        }} else {{\n            r = {z};\n        }}\n    }}"),
             15 => format!("always_ff ({x}) {{\n        r = {y};\n    }}"),
@@ -533,8 +580,8 @@ fn kinds(d: &mut Draw, quick: bool) -> Shape {
     }
     let ports = format!(
         "    clk: input clock,\n    rst: input reset,\n    i_p: input logic<4>,\n    o_p: output logic<4>,\n    m_p: modport I::mp,\n    gi: modport GI::<2>::mp,\n    x_p: {} {},\n",
-        d.pick(&["input", "output", "inout", "modport", "interface", "input"]),
-        nm(d)
+        if quick { "input" } else { *d.pick(&["input", "output", "inout", "modport", "interface", "input"]) },
+        if quick { "logic<4>".to_string() } else { nm(d) }
     );
     let text = format!(
         "{PRELUDE}module M (\n{ports}) {{\n    const LC: u32 = 2;\n    type LT = logic<4>;\n    struct LS {{\n        x: logic<2>,\n        y: logic<2>,\n    }}\n    enum LE {{\n        A,\n        B,\n    }}\n    function lf (\n        a: input logic<4>,\n    ) -> logic<4> {{\n        return a;\n    }}\n    let v: logic<4> = i_p;\n    let c: logic<4> = LC;\n    var w: logic<4>;\n    var r: logic<4>;\n    var ls: LS;\n    inst ui: I;\n    inst u: Sub (\n        i: v,\n        o: _,\n    );\n    assign o_p = w;\n{items}}}\n"
@@ -549,46 +596,55 @@ fn kinds(d: &mut Draw, quick: bool) -> Shape {
 /// (minutes of CPU).  Such items are excluded by construction (token-level
 /// over-approximation) and counted; the reproducer is replayed every run.
 pub fn branching_self_reference(text: &str) -> bool {
-    let toks: Vec<&str> = text
-        .split(|c: char| !(c.is_ascii_alphanumeric() || c == '_' || c == ';' || c == '{' || c == '}'))
-        .filter(|t| !t.is_empty())
-        .collect();
+    // tokens: identifiers and single punctuation characters
+    let mut toks: Vec<&str> = Vec::new();
+    let b = text.as_bytes();
     let mut i = 0;
-    while i + 1 < toks.len() {
-        let kw = toks[i];
-        if matches!(kw, "const" | "param" | "struct" | "union" | "type" | "enum") {
-            let name = toks[i + 1];
-            let mut depth = 0i32;
-            let mut refs = 0;
-            let mut k = i + 2;
-            while k < toks.len() {
-                let t = toks[k];
-                // tokens may be glued to `;`/`{`/`}` by the splitter: look at each char class
-                if t.contains('{') {
-                    depth += t.matches('{').count() as i32;
-                }
-                if t.contains('}') {
-                    depth -= t.matches('}').count() as i32;
-                    if depth <= 0 && matches!(kw, "struct" | "union" | "enum") {
-                        break;
-                    }
-                    if depth < 0 {
-                        break;
-                    }
-                }
-                if t.contains(';') && depth <= 0 {
-                    break;
-                }
-                if t.trim_matches(|c| c == ';' || c == '{' || c == '}') == name {
-                    refs += 1;
-                }
-                k += 1;
+    while i < b.len() {
+        let c = b[i];
+        if c.is_ascii_alphanumeric() || c == b'_' || c == b'$' {
+            let s = i;
+            while i < b.len() && (b[i].is_ascii_alphanumeric() || b[i] == b'_' || b[i] == b'$') {
+                i += 1;
             }
-            if refs >= 2 {
-                return true;
+            toks.push(&text[s..i]);
+        } else {
+            if !c.is_ascii_whitespace() && c < 0x80 {
+                toks.push(&text[i..i + 1]);
+            }
+            i += 1;
+        }
+    }
+    for i in 0..toks.len().saturating_sub(1) {
+        let kw = toks[i];
+        if !matches!(kw, "const" | "param" | "struct" | "union" | "type" | "enum") {
+            continue;
+        }
+        let name = toks[i + 1];
+        if !name.starts_with(|c: char| c.is_ascii_alphabetic() || c == '_') {
+            continue;
+        }
+        let braced = matches!(kw, "struct" | "union" | "enum");
+        let mut depth = 0i32;
+        let mut refs = 0;
+        for t in &toks[i + 2..] {
+            match *t {
+                "{" | "(" | "[" => depth += 1,
+                "}" | ")" | "]" => {
+                    depth -= 1;
+                    if depth < 0 || (depth == 0 && braced && *t == "}") {
+                        break;
+                    }
+                }
+                ";" if depth <= 0 => break,
+                "," if depth <= 0 && kw == "param" => break,
+                x if x == name => refs += 1,
+                _ => {}
             }
         }
-        i += 1;
+        if refs >= 2 {
+            return true;
+        }
     }
     false
 }
